@@ -158,6 +158,7 @@ def run(ctx: Ctx) -> None:
     from ..rules import placement as _placement
     _placement.rule_noise_placement(ctx)
     rule_unwrap_source(ctx)
+    rule_unwrap_order(ctx)
     rule_noise_preserved(ctx)
     from .c12 import rule_nodekeys
     rule_nodekeys(ctx)  # remove_identity / unwrap_nodes select nodes through node_dict: the index must follow add / remove / replace
@@ -246,6 +247,64 @@ def rule_noise_preserved(ctx: Ctx) -> None:
                      construct=f"{q}: noise of removed operations dropped")
 
 
+def rule_unwrap_order(ctx: Ctx) -> None:
+    """unwrap.order: OneQubitGateWrapper.operations is a matrix product (first element acts last); unwrap() returns the gates in the order
+    they are applied, i.e. the list built in product order and then *reversed*.  A single wrapper-level noise model becomes an Identity
+    carrying it, applied after all gates when its "After gate" flag is set (put first in product order) and before them otherwise (put
+    last); with per-gate noise, gate i gets noise[i]."""
+    import ast as _ast
+    from ..core import call_attr as _ca, norm as _norm, short as _short
+    repo = ctx.repo
+    OPSF = "graphiq/circuit/ops.py"
+    m = repo.module(OPSF)
+    fn = repo.anchor(OPSF, "OneQubitGateWrapper.unwrap")
+    ctx.touch(m, fn)
+    rets = [r for r in _ast.walk(fn) if isinstance(r, _ast.Return) and r.value is not None]
+    bad = []
+    if len(rets) != 1:
+        raise AnalysisError("OneQubitGateWrapper.unwrap: single return expected")
+    v = rets[0].value
+    rev = (isinstance(v, _ast.Subscript) and isinstance(v.slice, _ast.Slice) and v.slice.step is not None and _norm(v.slice.step) == "-1"
+           and v.slice.lower is None and v.slice.upper is None) or (isinstance(v, _ast.Call) and _norm(v.func) in ("list",) and v.args and isinstance(v.args[0], _ast.Call) and _norm(v.args[0].func) == "reversed")
+    if not rev:
+        bad.append(f"unwrap returns `{_short(v)}`: the product-ordered list must be reversed into application order")
+    gl = _norm(v.value) if isinstance(v, _ast.Subscript) else None
+    flag_if = [i for i in _ast.walk(fn) if isinstance(i, _ast.If) and "After gate" in _norm(i.test)]
+    if len(flag_if) == 1 and gl is not None:
+        I = flag_if[0]
+        from ..chains import positive as _pos
+        t, neg = _pos(I.test)
+        after_arm, before_arm = (I.orelse, I.body) if neg else (I.body, I.orelse)
+        def how(stmts):
+            for c in [x for st in stmts for x in _ast.walk(st) if isinstance(x, _ast.Call)]:
+                if _ca(c) == "insert" and _norm(c.func.value) == gl and c.args and _norm(c.args[0]) == "0":
+                    return "front"
+                if _ca(c) == "append" and _norm(c.func.value) == gl:
+                    return "end"
+            return None
+        if how(after_arm) != "front" or how(before_arm) != "end":
+            bad.append(f"a noise with 'After gate' set must be placed first in the product-ordered list (applied last) and otherwise last; found {how(after_arm)} / {how(before_arm)}")
+    elif gl is not None:
+        raise AnalysisError("OneQubitGateWrapper.unwrap: the placement of the wrapper-level noise was not found")
+    comps = [c for c in _ast.walk(fn) if isinstance(c, _ast.ListComp)]
+    for c in comps:
+        g = c.generators[0]
+        iv = _norm(g.target)
+        kw = next((k.value for call in _ast.walk(c.elt) if isinstance(call, _ast.Call) for k in call.keywords if k.arg == "noise"), None)
+        head = c.elt.func if isinstance(c.elt, _ast.Call) else None
+        if head is not None and _norm(head) != f"self.operations[{iv}]":
+            bad.append(f"gate i of the unwrapped list is built from `{_short(head)}` instead of self.operations[{iv}]")
+        if kw is not None and "self.noise" in _norm(kw) and _norm(kw) != f"self.noise[{iv}]":
+            bad.append(f"gate i receives `{_short(kw)}` instead of self.noise[{iv}]")
+        if _norm(g.iter) != "range(len(self.operations))":
+            bad.append(f"the gates are built over `{_short(g.iter)}` instead of all operations")
+    if bad:
+        for why in dict.fromkeys(bad):
+            ctx.fail("unwrap.order", m, fn, f"OneQubitGateWrapper.unwrap: {why}", func="OneQubitGateWrapper.unwrap", construct=f"unwrap: {why[:70]}")
+    else:
+        ctx.ok("unwrap.order", m, fn, what="product order reversed; wrapper noise after / before; per-gate noise aligned")
+
+
 def rule_unwrap_source(ctx: Ctx) -> None:
     """unwrap.source: unwrap_nodes replaces every wrapper node by the operations its unwrap() returns — that method is where each gate gets
     its register and *its share of the wrapper's noise*.  An operation that unwrap_nodes builds itself (from a class of
@@ -289,6 +348,8 @@ def rule_unwrap_source(ctx: Ctx) -> None:
 
 
 KNOCKOUTS = [
+    Knockout("unwrap-not-reversed", "graphiq/circuit/ops.py", sub_once("        return gates[::-1]\n\n    def openqasm_info(self):", "        return gates\n\n    def openqasm_info(self):"), "unwrap.order", "reversed"),
+    Knockout("unwrap-after-noise-appended", "graphiq/circuit/ops.py", sub_once("                gates.insert(0, noise)\n            else:\n                gates.append(noise)", "                gates.append(noise)\n            else:\n                gates.insert(0, noise)"), "unwrap.order", "After gate"),
     Knockout("remove-identity-ignores-noise", "graphiq/circuit/circuit_dag.py", sub_once('                if isinstance(self.dag.nodes[node]["op"].noise, NoNoise):\n                    self.remove_op(node)\n', '                self.remove_op(node)\n'), "effect.noise-preserved", "remove_identity"),
     Knockout("grouping-wrapper-without-noise", "graphiq/circuit/circuit_dag.py", lambda src: (src.replace("gate_list, register, reg_type, noise=noise_list", "gate_list, register, reg_type") if src.count("gate_list, register, reg_type, noise=noise_list") == 2 else (_ for _ in ()).throw(LookupError("anchor"))), "effect.noise-preserved", "group_one_qubit_gates"),
     Knockout("unwrap-single-gate-fast-path", "graphiq/circuit/circuit_dag.py", sub_once('                op_list = self.dag.nodes[node]["op"].unwrap()\n', '                wrapper = self.dag.nodes[node]["op"]\n                if len(wrapper.operations) == 1:\n                    self.replace_op(node, wrapper.operations[0](register=wrapper.register, reg_type=wrapper.reg_type))\n                    continue\n                op_list = wrapper.unwrap()\n'), "unwrap.source", "not from unwrap"),
